@@ -315,6 +315,7 @@ func (eng *Engine) checkProperty(id, tier string, timeoutFlag, workers int, keep
 			engineErrs = append(engineErrs, fmt.Sprintf("%s: %s", fr.Fn, fr.Err))
 		}
 	}
+	var staleBudget map[string]int
 	deadReturns := map[string]int{}
 	liveReturns := map[string]int{}
 	var deadList []string
@@ -342,6 +343,36 @@ func (eng *Engine) checkProperty(id, tier string, timeoutFlag, workers int, keep
 		isUnclaimed := false
 		for _, u := range unclaimed {
 			if u.Property == id && matchName(u.Obligation, r.Obl.name) {
+				isUnclaimed = true
+			}
+		}
+		if !isUnclaimed && r.Status != "proved" {
+			// obligation names contain the source text of their statement: after a harmless edit of that text (a renamed
+			// local) an unclaimed obligation comes back under another name. An entry of the list that matches no obligation
+			// of this run stands for one failing obligation of the same function and kind.
+			if staleBudget == nil {
+				staleBudget = map[string]int{}
+				for _, u := range unclaimed {
+					if u.Property != id {
+						continue
+					}
+					hit := false
+					for _, r2 := range run.results {
+						if matchName(u.Obligation, r2.Obl.name) {
+							hit = true
+							break
+						}
+					}
+					if !hit {
+						if parts := strings.SplitN(u.Obligation, ":", 3); len(parts) == 3 {
+							staleBudget[parts[0]+":"+parts[1]]++
+						}
+					}
+				}
+			}
+			key := r.Obl.fn + ":" + r.Obl.kind
+			if staleBudget[key] > 0 {
+				staleBudget[key]--
 				isUnclaimed = true
 			}
 		}
